@@ -33,7 +33,7 @@ def _corrupt(evs):
 
 
 def plans(tier):
-    return progcheck.standard_plans(tier)
+    return progcheck.standard_plans(tier) + ([("d1-win-q", 128, 1)] if tier == "quick" else [("d1-win", 128, 1)])
 
 
 def run(chk):
